@@ -131,11 +131,14 @@ def reference(sessions, ctx=None, workers=None, timeout=1500):
 class Realised:
     """One catalogue entry on a real, randomly oriented lattice."""
 
-    def __init__(self, crystal, a=2.0, seed=0):
+    def __init__(self, crystal, a=2.0, seed=0, left_handed=False):
         self.cr = crystal
         self.D = int(crystal["D"])
         self.G = np.array(crystal["G"], dtype=float)
         self.L = xtal.lattice_from_gram(self.G, a=a, rng=np.random.default_rng(seed))
+        self.left_handed = bool(left_handed)
+        if left_handed:      # the mirror image of the crystal: same Gram matrix, det L < 0
+            self.L = np.ascontiguousarray(self.L @ np.diag([-1.0, 1.0, 1.0]))
         self.Linv = np.linalg.inv(self.L)
         self.species = [at["sp"] for at in crystal["atoms"]]
         self.masses = [float(at["m"]) for at in crystal["atoms"]]
